@@ -29,9 +29,16 @@ pub mod sync {
             let inner = RealArc::new(Inner { st: Mutex::new(State { queue: VecDeque::new(), senders: 1, receiver: true }), cv: Condvar::new() });
             (Sender { inner: inner.clone() }, Receiver { inner })
         }
-        impl<T> Sender<T> {
+        ::std::thread_local! {
+            /// harness hook: describes a message as it is sent, so that "whichever worker finishes first" is observable
+            pub static SEND_HOOK: ::std::cell::Cell<Option<fn(&dyn ::std::any::Any) -> Option<::std::string::String>>> = ::std::cell::Cell::new(None);
+            pub static SEND_LOG: ::std::cell::RefCell<::std::vec::Vec<::std::string::String>> = ::std::cell::RefCell::new(::std::vec::Vec::new());
+        }
+        impl<T: 'static> Sender<T> {
             pub fn send(&self, t: T) -> Result<(), SendError<T>> {
                 let mut g = self.inner.st.lock().unwrap();
+                // logged in queue order (under the channel lock), whether or not a receiver is left
+                if let Some(h) = SEND_HOOK.with(|h| h.get()) { if let Some(d) = h(&t as &dyn ::std::any::Any) { SEND_LOG.with(|l| l.borrow_mut().push(d)); } }
                 if !g.receiver { return Err(SendError(t)); }
                 g.queue.push_back(t); drop(g); self.inner.cv.notify_one(); Ok(())
             }
